@@ -72,15 +72,25 @@ def pow2(x):
 
 
 def make_fn(spec):
-    kind, a, b, c = spec
+    kind, a, b, c = spec[:4]
+    scalar_only = len(spec) > 4 and bool(spec[4])
     a, b, c = float(Fraction(*a)), float(Fraction(*b)), float(Fraction(*c))
     if kind == "affine":
-        return lambda t: a * t + b
-    if kind == "quad":
-        return lambda t: a * (t * t) + b
-    if kind == "abs":
-        return lambda t: a * np.abs(t - c) + b
-    raise ValueError(kind)
+        f = lambda t: a * t + b
+    elif kind == "quad":
+        f = lambda t: a * (t * t) + b
+    elif kind == "abs":
+        f = lambda t: a * np.abs(t - c) + b
+    else:
+        raise ValueError(kind)
+    if not scalar_only:
+        return f
+
+    def g(t):
+        # a function written for one time at a time (math.*, float(t), `if t < 0`): it rejects arrays, so the
+        # signal has to evaluate it sample by sample
+        return f(float(t))
+    return g
 
 
 def vt_input(code, form, Signal):
@@ -753,6 +763,8 @@ class Gen:
             if not nice:
                 return {"op": "newarr", "xs": [q_of(x) for x in self.values(r.choice([2, 3, 4]))]}
             op["va"] = r.choice(nice)
+            if c == 2 and r.random() < 0.35:
+                op["fn"] = list(op["fn"][:4]) + [True]          # non-vectorisable backing function
             if r.random() < 0.4 and O:
                 # a grid that is almost, but not exactly, the grid of an existing signal
                 near = [a for a in range(len(E)) if any(self.near(E[a], p.times) for p in O)]
@@ -764,7 +776,8 @@ class Gen:
                     op["fn"][2] = q_of(0)      # tiny times: no constant term, values keep few bits
                     op["fn"][3] = q_of(0)
             if c == 2 and self.dec_ok(E[op["ta"]]):
-                op["fn"] = [r.choice(["affine", "abs"]), q_of(r.choice([1, -1, 2, Fraction(1, 2)])), q_of(0), q_of(0)]
+                op["fn"] = [r.choice(["affine", "abs"]), q_of(r.choice([1, -1, 2, Fraction(1, 2)])), q_of(0), q_of(0)] + \
+                    ([True] if r.random() < 0.3 else [])
                 return op
             if c == 2 and not self.fun_ok(E[ta]):
                 oks = [a for a in range(len(E)) if self.fun_ok(E[a])]
@@ -950,7 +963,7 @@ def cq(q):
 
 
 def cfn(fn):
-    kind, a, b, c = fn
+    kind, a, b, c = fn[:4]
     if kind == "affine":
         return "(fun t : Q => %s * t + %s)" % (cq(a), cq(b))
     if kind == "quad":
@@ -1250,6 +1263,66 @@ def exhaustive_near():
     return hs
 
 
+def regrid_suite():
+    """every source class x every relation between the source grid and the target grid (same grid; same length
+    and end points but other interior samples; contained; wider; finer; disjoint on either side; one point; empty;
+    half a sample off), for dyadic grids and -- function-backed signals -- decimal-step grids with windows starting
+    k samples inside the source (written independently as np.linspace between round decimals) and set_buffers(k*dt);
+    vectorised and non-vectorisable backing functions, before and after a shift"""
+    F = Fraction
+    hs = []
+    src = [F(0), F(1), F(2), F(4), F(5)]
+    usrc = [F(0), F(1, 2), F(1), F(3, 2), F(2), F(5, 2)]
+    vals = [F(3), F(-1, 2), F(4), F(1), F(2), F(-3)]
+    def targets(g):
+        lo, hi = g[0], g[-1]
+        inner = sorted(set([lo, hi] + [lo + (hi - lo) * F(k, 8) for k in (1, 3, 6)] ))
+        same_ends = [lo] + [x + F(1, 4) for x in g[1:-1]] + [hi]
+        return [list(g), same_ends, [g[1], g[1] + F(1, 4), g[2], g[-2]], [lo - 1, lo] + list(g[1:]) + [hi + F(1, 2), hi + 2],
+                inner, [lo - 3, lo - 2, lo - F(3, 2)], [hi + F(1, 2), hi + 1], [g[2]], [], [x + F(1, 4) for x in g]]
+    for cls in range(3):
+        for sub in (False, True):
+            g = usrc if cls == 2 else src
+            for fnv in ([["affine", [2, 1], [1, 1], [0, 1]], ["abs", [1, 1], [-1, 2], [1, 1], True], ["quad", [1, 1], [0, 1], [0, 1], True]] if cls == 2 else [None]):
+                ops = [{"op": "newarr", "xs": [q_of(x) for x in g]}, {"op": "newarr", "xs": [q_of(x) for x in vals[:len(g)]]},
+                       {"op": "mk", "cls": cls, "sub": sub, "ta": 0, "va": 1, "vt": 1, "vtform": "enum",
+                        "fn": fnv or ["affine", [1, 1], [0, 1], [0, 1]]}]
+                for n_t, t in enumerate(targets(g)):
+                    if cls == 2 and len(t) < 2 and len(t) != 0:
+                        continue
+                    ops.append({"op": "newarr", "xs": [q_of(x) for x in t]})
+                    ops.append({"op": "with_times", "i": 0, "ta": 2 + n_t if not (cls == 2) else len([o for o in ops if o["op"] == "newarr"]) - 1})
+                # the same after a shift of the source by 3/4 (function-backed: the time origin moves along)
+                ops.append({"op": "shift", "i": 0, "q": [3, 4], "qform": "float"})
+                ops.append({"op": "with_times", "i": 0, "ta": 0})
+                ops.append({"op": "with_times", "i": 0, "ta": 2})
+                hs.append(ops)
+    # decimal steps (function-backed, rounding-free functions a*t / a*|t|)
+    for dt, j0, n in ((0.1, -10, 19), (0.2, -5, 17), (1e-9, -10, 19)):
+        srcg = np.linspace(float(np.round(j0 * dt, 14)), float(np.round((j0 + n - 1) * dt, 14)), n)
+        for fnv in (["affine", [1, 1], [0, 1], [0, 1]], ["abs", [2, 1], [0, 1], [0, 1], True]):
+            ops = [{"op": "newarr", "xs": [q_of(frac(x)) for x in srcg]},
+                   {"op": "mk", "cls": 2, "sub": False, "ta": 0, "va": 0, "vt": 0, "vtform": "enum", "fn": fnv}]
+            na = 1
+            for k0 in (3, 5, 6, 10):
+                m = n - k0 - 2
+                if m < 3:
+                    continue
+                win = np.linspace(float(np.round((j0 + k0) * dt, 14)), float(np.round((j0 + k0 + m - 1) * dt, 14)), m)
+                if frac(win[0] - srcg[0]) != frac(win[0]) - frac(srcg[0]) or frac(srcg[-1] - win[-1]) != frac(srcg[-1]) - frac(win[-1]) \
+                        or win[0] < srcg[0] or win[-1] > srcg[-1]:
+                    continue        # the buffers would not be the exact differences
+                ops.append({"op": "newarr", "xs": [q_of(frac(x)) for x in win]})
+                ops.append({"op": "with_times", "i": 0, "ta": na})
+                na += 1
+            for k in (3, 5):
+                ops.append({"op": "copy", "i": 0})
+                ncopy = 1 + sum(1 for o in ops if o["op"] in ("with_times", "copy")) - 1
+                ops.append({"op": "setbuf", "i": ncopy, "lead": q_of(frac(k * dt)), "trail": q_of(frac(2 * dt))})
+            hs.append(ops)
+    return hs
+
+
 def load_corpus():
     d = os.path.join(common.ROOT, "corpus", "C04")
     out = []
@@ -1294,6 +1367,9 @@ def run(ctx):
     for ops in ex:
         o, st, comp = execute(None, fixed_ops=ops)
         histories.append(("pairs", o, st, comp))
+    for ops in regrid_suite():
+        o, st, comp = execute(None, fixed_ops=ops)
+        histories.append(("regrid-suite", o, st, comp))
     near = exhaustive_near()
     n_refused = 0
     for ops in near:
